@@ -1,5 +1,50 @@
 """Generates the roots crate: one `root_*` function per (trait, type pair) the rules need resolved,
 plus the positive controls (deliberately violating instances each rule must fire on)."""
 
+CONTROLS = r'''
+/// Positive controls: every item below deliberately violates one rule; the rule must report it on every run.
+#[allow(dead_code, unused)]
+pub mod controls {
+    use geo_types::{Coord, LineString};
+
+    pub struct CPoly {
+        exterior: LineString<f64>,
+        interiors: Vec<LineString<f64>>,
+    }
+    impl CPoly {
+        // R18.2 control: the Err exit of `?` skips the closing step
+        pub fn try_exterior_mut<F, E>(&mut self, f: F) -> Result<(), E>
+        where
+            F: FnOnce(&mut LineString<f64>) -> Result<(), E>,
+        {
+            f(&mut self.exterior)?;
+            self.exterior.close();
+            Ok(())
+        }
+        // R18.2 control: closes the wrong element
+        pub fn interiors_push(&mut self, new_interior: LineString<f64>) {
+            self.interiors.push(new_interior);
+            if let Some(r) = self.interiors.first_mut() {
+                r.close();
+            }
+        }
+    }
+
+    pub struct CRect {
+        min: Coord<f64>,
+        max: Coord<f64>,
+    }
+    impl CRect {
+        // R18.4 control: one arm swapped
+        pub fn new(c1: Coord<f64>, c2: Coord<f64>) -> Self {
+            let (min_x, max_x) = if c1.x < c2.x { (c2.x, c1.x) } else { (c2.x, c1.x) };
+            let (min_y, max_y) = if c1.y < c2.y { (c1.y, c2.y) } else { (c2.y, c1.y) };
+            CRect { min: Coord { x: min_x, y: min_y }, max: Coord { x: max_x, y: max_y } }
+        }
+    }
+}
+'''
+
+
 def generate():
-    return "pub fn root_dummy() {}\n"
+    return "#![allow(dead_code, unused)]\npub fn root_dummy() {}\n" + CONTROLS
